@@ -353,7 +353,7 @@ pub fn build(prop: &str, draws: &[u16], tier: Tier) -> Case {
             3 => ("rwlock", gen::sync_prog(&mut s, &SyncParams { rwlock: true, max_threads: 3, max_ops: 6 + extra, ..sp() })),
             4 => ("condvar", gen::sync_prog(&mut s, &SyncParams { condvar: true, max_threads: 3, max_ops: 7 + extra, ..sp() })),
             5 => ("channel", gen::sync_prog(&mut s, &SyncParams { channel: true, max_threads: 3, max_ops: 6 + extra, joins: true, ..sp() })),
-            6 => ("park-notify-join", gen::sync_prog(&mut s, &SyncParams { park: true, notify: true, max_threads: 3, max_ops: 6 + extra, joins: true, child_joins: true, ..sp() })),
+            6 => ("park-notify-join", gen::sync_prog(&mut s, &SyncParams { park: true, notify: true, unpark_any: true, max_threads: 3, max_ops: 6 + extra, joins: true, child_joins: true, ..sp() })),
             7 => ("mixed", gen::sync_prog(&mut s, &SyncParams { mutex: true, channel: true, atomics: true, ordered_locks: true, max_threads: 3, max_ops: 6 + extra, ..sp() })),
             8 => ("mixed2", gen::sync_prog(&mut s, &SyncParams { rwlock: true, condvar: true, atomics: true, max_threads: 2, max_ops: 7 + extra, ..sp() })),
             _ => ("try-ops", gen::sync_prog(&mut s, &SyncParams { mutex: true, try_lock: true, rwlock: true, try_rw: true, channel: true, try_recv: true, max_threads: 2, max_ops: 6 + extra, ..sp() })),
@@ -365,8 +365,8 @@ pub fn build(prop: &str, draws: &[u16], tier: Tier) -> Case {
             1 => ("lock-order-ok", gen::sync_prog(&mut s, &SyncParams { mutex: true, rwlock: true, ordered_locks: true, max_threads: 3, max_ops: 7 + extra, ..sp() })),
             2 => ("condvar", gen::sync_prog(&mut s, &SyncParams { condvar: true, max_threads: 3, max_ops: 7 + extra, ..sp() })),
             3 => ("channel", gen::sync_prog(&mut s, &SyncParams { channel: true, max_threads: 3, max_ops: 6 + extra, joins: true, child_joins: true, ..sp() })),
-            4 => ("park", gen::sync_prog(&mut s, &SyncParams { park: true, notify: true, max_threads: 3, max_ops: 6 + extra, joins: true, child_joins: true, ..sp() })),
-            _ => ("mixed", gen::sync_prog(&mut s, &SyncParams { mutex: true, rwlock: true, channel: true, park: true, max_threads: 3, max_ops: 7 + extra, joins: true, ..sp() })),
+            4 => ("park", gen::sync_prog(&mut s, &SyncParams { park: true, notify: true, unpark_any: true, max_threads: 3, max_ops: 6 + extra, joins: true, child_joins: true, ..sp() })),
+            _ => ("mixed", gen::sync_prog(&mut s, &SyncParams { mutex: true, rwlock: true, channel: true, park: true, unpark_any: true, max_threads: 3, max_ops: 7 + extra, joins: true, ..sp() })),
         },
         "C07" => match s.pick(6) {
             0 => ("mutex", gen::sync_prog(&mut s, &SyncParams { mutex: true, ordered_locks: true, cells: true, max_threads: 3, max_ops: 7 + extra, late_spawn: true, ..sp() })),
@@ -381,7 +381,7 @@ pub fn build(prop: &str, draws: &[u16], tier: Tier) -> Case {
             6 => ("unpark-any", gen::sync_prog(&mut s, &SyncParams { park: true, condvar: true, unpark_any: true, max_threads: 3, max_ops: 6 + extra, joins: true, ..sp() })),
             0 | 1 => ("condvar", gen::sync_prog(&mut s, &SyncParams { condvar: true, cells: true, max_threads: 3, max_ops: 7 + extra, ..sp() })),
             2 => ("notify", gen::sync_prog(&mut s, &SyncParams { notify: true, cells: true, max_threads: 2, max_ops: 6 + extra, joins: true, ..sp() })),
-            3 => ("park", gen::sync_prog(&mut s, &SyncParams { park: true, cells: true, max_threads: 3, max_ops: 6 + extra, joins: true, ..sp() })),
+            3 => ("park", gen::sync_prog(&mut s, &SyncParams { park: true, cells: true, unpark_any: true, max_threads: 3, max_ops: 6 + extra, joins: true, ..sp() })),
             4 => ("join", gen::sync_prog(&mut s, &SyncParams { cells: true, max_threads: 3, max_ops: 5 + extra, joins: true, child_joins: true, late_spawn: true, ..sp() })),
             _ => ("wait-shapes", gen::wait_shape(&mut s)),
         },
